@@ -567,6 +567,41 @@ theorem copy_reads_equal {s s' : State K} (hwf : WF s) {h : Nat} {o : Obj} {dt :
   simp only [State.allocObj, Store.readView, Store.alloc, Store.next]
   simp
 
+/-! ### the same statements for every reachable state (arbitrary histories from the empty state) -/
+
+/-- a collection returned by any operation after any history stays linked to its members through
+any later history in which none of its members is handed to another
+`FieldCollection(..., copy_fields=False)` -/
+theorem collection_layout_history (ops₁ : List (Op K)) {op : Op K} {s' : State K}
+    (h : step G (run G ({} : State K) ops₁) op = .ok s')
+    (hnew : (run G ({} : State K) ops₁).objs.length < s'.objs.length) {oc : Obj}
+    (hoc : s'.objs[lastId s']? = some oc) (hc : oc.cls = .coll) (ops₂ : List (Op K))
+    (hns : NoSteal G (lastId s') s' ops₂) : Linked (run G s' ops₂) (lastId s') :=
+  collection_layout (wf_step (reachable_wf ops₁) h)
+    (new_collection_linked (reachable_wf ops₁) h hnew hoc hc) ops₂ hns
+
+theorem write_visible_through_alias_history (ops : List (Op K)) {s' : State K} {h₁ h₂ : Nat}
+    {o₁ o₂ : Obj} (ho₁ : (run G ({} : State K) ops).objs[h₁]? = some o₁)
+    (ho₂ : (run G ({} : State K) ops).objs[h₂]? = some o₂) {p₁ p₂ : Nat}
+    (hp₁ : p₁ < o₁.view.len) (hp₂ : p₂ < o₂.view.len) (hbuf : o₁.view.buf = o₂.view.buf)
+    (hcell : o₁.view.off + p₁ = o₂.view.off + p₂) (v : K)
+    (h : step G (run G ({} : State K) ops) (.writeCell h₁ p₁ v) = .ok s') :
+    (s'.denote h₂)[p₂]? = some (some v) :=
+  write_visible_through_alias (reachable_wf ops) ho₁ ho₂ hp₁ hp₂ hbuf hcell v h
+
+theorem frame_history (ops : List (Op K)) {op : Op K} {s' : State K}
+    (h : step G (run G ({} : State K) ops) op = .ok s') (b i : Nat)
+    (hb : b < (run G ({} : State K) ops).store.next)
+    (hn : ¬ foot G (run G ({} : State K) ops) op b i) :
+    s'.store.read b i = (run G ({} : State K) ops).store.read b i :=
+  frame (reachable_wf ops) h b i hb hn
+
+theorem binary_op_pure_history (ops : List (Op K)) {s' : State K} {bop : BinOp} {a : Nat}
+    {b : Operand K} (hs : step G (run G ({} : State K) ops) (.binop bop a b) = .ok s') :
+    ∀ h, h < (run G ({} : State K) ops).objs.length →
+      s'.denote h = (run G ({} : State K) ops).denote h :=
+  (binary_op_pure (reachable_wf ops) hs).2.2
+
 end
 
 /-! ### non-vacuity: concrete histories (values in `Int`) -/
